@@ -29,6 +29,7 @@ type C19Case struct {
 func genC19(t *rapid.T) C19Case {
 	cfg := kit.DefaultTreeGen()
 	cfg.CorruptPct = 3
+	cfg.ExtraCorruptions = []string{"timestamp-future"}
 	cfg.BadIntentPct = 2
 	cfg.ForkPct = 30
 	tc := kit.GenTree(t, cfg)
